@@ -34,7 +34,8 @@ class EventManager(MpfController):
 
     config_name = "event_manager"
 
-    __slots__ = ["registered_handlers", "event_queue", "callback_queue", "monitor_events", "_queue_tasks", "_stopped"]
+    __slots__ = ["registered_handlers", "event_queue", "callback_queue", "monitor_events", "_queue_tasks", "_stopped",
+                 "_processing_queue"]
 
     def __init__(self, machine: "MachineController") -> None:
         """Initialize EventManager."""
@@ -46,6 +47,7 @@ class EventManager(MpfController):
         self.monitor_events = False
         self._queue_tasks = []              # type: List[asyncio.Task]
         self._stopped = False
+        self._processing_queue = False
 
         self.add_handler("debug_dump_stats", self._debug_dump_events)
 
@@ -654,8 +656,10 @@ class EventManager(MpfController):
         elif self._info and not kwargs.get("_silent", False):
             self.info_log("Event: ======'%s'====== Args=%s", event, kwargs)
 
-        # fast path for events without handler
-        if not callback and not self.monitor_events and event not in self.registered_handlers:
+        # fast path for events without handler. this is only safe when no other event is waiting or being
+        # processed. otherwise, a handler for this event might be added before it is this event's turn.
+        if not callback and not self.monitor_events and event not in self.registered_handlers and \
+                not self._processing_queue and not self.event_queue:
             return
 
         if not self.event_queue and hasattr(self.machine.clock, "loop"):
@@ -830,6 +834,14 @@ class EventManager(MpfController):
 
     def process_event_queue(self) -> None:
         """Check if there are any other events that need to be processed, and then process them."""
+        was_processing = self._processing_queue
+        self._processing_queue = True
+        try:
+            self._process_event_queue()
+        finally:
+            self._processing_queue = was_processing
+
+    def _process_event_queue(self) -> None:
         inner_queue = deque()   # type: Deque[Deque[PostedEvent]]
         while self.event_queue or self.callback_queue:
             # first process all events. if they post more events we will
